@@ -355,7 +355,7 @@ def _srctie_prove(pid: str, res: dict, thorough: bool):
     path, names = _srctie_theorems(pid)
     mod = 'BoltonsVerif.%s.SrcTie' % pid
     res['theorems'] = res['theorems'] + names
-    extra = [os.path.join(LEAN, 'BoltonsVerif', f) for f in ('PyRt.lean', 'PyRtLemmas.lean', 'PyHeap.lean')]
+    extra = [os.path.join(LEAN, 'BoltonsVerif', f) for f in ('PyRt.lean', 'PyRtLemmas.lean', 'PyHeap.lean', 'PyRtC05.lean')]
     extra += [os.path.join(LEAN, 'BoltonsVerif', 'Generated', 'Src_%s.lean' % m)
               for m in sorted({sp.get('gen_file') or sp['module'].split('.')[-1] for sp in specs})]
     for f in extra:
